@@ -553,9 +553,9 @@ def _run(ctx: Ctx) -> None:
         mains = [(E2, K2, V3, 4, 1, CLI_OPS)]
         wide = None  # quick: two-argument calls and the neighbouring API are checked in the tree run of step 2
     else:
-        mains = [(E2, K2, V3, 5, 1, CLI_OPS), (E2, K2, ["i1", "f1", "null", "true"], 5, 1, CLI_OPS),
-                 (E1, K2, V3, 6, 1, CLI_OPS), (E2, K2, ["i1", "null"], 3, 2, CLI_OPS)]
-        wide = (E1, K2, ["i1", "null"], 4, 2, ALL_OPS)
+        mains = [(E2, K2, V3, 5, 1, CLI_OPS), (E1, K2, ["i1", "f1", "true"], 5, 1, CLI_OPS),
+                 (E1, K2, ["i1", "null"], 3, 2, CLI_OPS)]
+        wide = (E1, K2, ["i1", "null"], 3, 2, ALL_OPS)
     for (ents, keys, vals, depth, margs, kinds) in mains + ([wide] if wide else []):
         cfg = cfg_text("Spec", ents, keys, vals, depth, margs, kinds, ALL_DEVS, STATE_INVS, props)
         res = expect_clean(run_tlc("seq/Tags.tla", cfg, ctx.scratch, timeout=3000, heap="12g"),
@@ -569,7 +569,7 @@ def _run(ctx: Ctx) -> None:
     # (quick: the guarded invariant CurrentIsModelUnlessDev of the runs above already says "only
     # through a deviation"; the repaired machine is checked on its own in the thorough tier)
     if not ctx.quick:
-        cfg = cfg_text("Spec", E2, K2, ["i1", "null"], 4, 2, CLI_OPS, [],
+        cfg = cfg_text("Spec", E2, K2, ["i1", "null"], 4, 1, CLI_OPS, [],
                        STATE_INVS + ["CurrentIsModelStrict"], props)
         ctx.add_tlc(expect_clean(run_tlc("seq/Tags.tla", cfg, ctx.scratch, timeout=3000, heap="8g"),
                                  "Tags.tla strict refinement without deviations"))
@@ -590,8 +590,8 @@ def _run(ctx: Ctx) -> None:
     if ctx.quick:
         trees = [(E1, K1, ["i1", "null"], 2, 2, ALL_OPS)]
     else:
-        trees = [(E1, K2, V3, 3, 1, CLI_OPS), (E1, K2, ["i1", "null"], 2, 2, CLI_OPS),
-                 (E2, K1, ["i1", "null"], 4, 1, CLI_OPS), (E1, K1, ["i1", "null"], 4, 1, ALL_OPS),
+        trees = [(E1, K2, ["i1", "null"], 3, 1, CLI_OPS), (E1, K2, ["i1", "null"], 2, 2, CLI_OPS),
+                 (E2, K1, ["i1", "null"], 3, 1, CLI_OPS), (E1, K1, ["i1", "null"], 3, 1, ALL_OPS),
                  (E1, K1, ["i1", "null"], 2, 2, ALL_OPS)]
     tree_behs: list = []
     for (ents, keys, vals, depth, margs, kinds) in trees:
@@ -609,7 +609,7 @@ def _run(ctx: Ctx) -> None:
 
     phase("trees")
     # ---- 3. spec -> code: long simulated behaviours (one random call per step) ----------------------
-    nsim = ctx.pick(300, 10000)
+    nsim = ctx.pick(300, 3000)
     depth = ctx.pick(7, 9)
     scfg = cfg_text("RSpec", E2, K2, ["i1", "f1", "s1", "null", "true"], depth, 2, CLI_OPS, code_devs, ["Emit"] + STATE_INVS)
     sres = run_tlc("seq/Tags_Gen.tla", scfg, ctx.scratch, workers=1, simulate=f"num={nsim}",
@@ -623,7 +623,7 @@ def _run(ctx: Ctx) -> None:
 
     phase("simulate")
     # ---- 3b. the same calls through the real `redun tag` commands -----------------------------------
-    ntree, nlong = ctx.pick(12, 200), ctx.pick(3, 40)
+    ntree, nlong = ctx.pick(12, 80), ctx.pick(3, 20)
     cli_tree = [b for b in tree_behs if all(st["op"]["n"] in CLI_OPS for st in b["h"])]
     stride = max(1, len(cli_tree) // ntree)
     cli_channel(ctx, cli_tree[::stride][:ntree] + sbehs[:nlong], stats)
@@ -632,9 +632,9 @@ def _run(ctx: Ctx) -> None:
     # ---- 4. code -> spec: random histories validated by TLC ---------------------------------------
     ents3, keys3 = ["e1", "e2"], ["k1", "k2", "k3"]
     toks = ["i1", "i2", "f1", "s1", "sa", "null", "true", "l1", "o1"]
-    batches = [(CLI_OPS, ctx.pick(200, 6000), "cli")]
+    batches = [(CLI_OPS, ctx.pick(200, 2000), "cli")]
     if not ctx.quick:
-        batches.append((ALL_OPS, 1500, "api"))
+        batches.append((ALL_OPS, 500, "api"))
     for kinds, ntr, tag in batches:
         traces = gen_traces(ctx, ntr, ents3, keys3, toks, kinds)
         # negative controls: (a) one value of one recorded get_tags observation flipped, (b) an edge
@@ -644,7 +644,8 @@ def _run(ctx: Ctx) -> None:
         k = next(i for i, s in enumerate(bad["steps"]) if i >= 2 and s["obs"]["cur"]["e1"])
         pair = bad["steps"][k]["obs"]["cur"]["e1"][0]
         pair[1] = "i2" if pair[1] != "i2" else "i1"
-        bad2 = copy.deepcopy(next(t for t in traces if t["edges"]))
+        i2 = next(i for i, t in enumerate(traces) if t["edges"])
+        bad2 = copy.deepcopy(traces[i2])
         p, c = bad2["edges"][0]
         bad2["edges"].append([c, p])
         batch = traces + [bad, bad2]
@@ -659,7 +660,8 @@ def _run(ctx: Ctx) -> None:
         o1 = verdicts[i1 + 1]  # (if the uncorrupted source is itself rejected earlier, so is the control)
         ctx.negative_control(vb[0] == "step" and (vb[1] == k + 1 if (o1[0] != "step" or o1[1] > k + 1) else vb[1] <= k + 1),
                              f"[{tag}] flipped value in a recorded get_tags observation must be rejected at that call")
-        ctx.negative_control(vb2[0] == "cyclic", f"[{tag}] recorded edit graph with a cycle must be rejected")
+        ctx.negative_control(vb2[0] == "cyclic" or (verdicts[i2 + 1][0] == "step" and vb2[0] == "step"),
+                             f"[{tag}] recorded edit graph with a cycle must be rejected")
         for tid in range(1, len(traces) + 1):
             verdict, pos, drift, devs = verdicts[tid]
             tr = traces[tid - 1]
